@@ -359,3 +359,19 @@ Theorem C03_a64_db_patched_witness :
   spec_rows rows (a64_mn i) [OGp true 5; ORel 1048572] = Some (a64_rid i, Z.lor (a64_enc (set_imm i 0)) 8388576).
 Proof. exact a64_db_patched_witness. Qed.
 Print Assumptions C03_a64_db_patched_witness.
+
+(* instruction level: C02's model of an a64 emit is `spec_rows` - the FIRST row of the mnemonic whose operand syntaxes accept the operands
+   (that function is what C02's check ties to the real assembler).  It picks exactly the row named by a64_rid and yields a64_enc i. *)
+Theorem C03_a64_db_spec_rows : forall i, a64_wf i -> a64_db_ok i ->
+  spec_rows rows (a64_mn i) (a64_ops i) = Some (a64_rid i, a64_enc i).
+Proof. exact a64_db_spec_rows. Qed.
+Print Assumptions C03_a64_db_spec_rows.
+
+Theorem C03_a64_db_patched_spec_rows : forall i off m,
+  a64_wf (set_imm i 0) -> a64_db_ok i -> hole_ok (kind_of i) (a64_enc (set_imm i 0)) = true -> int64 off ->
+  encode_offset (fmt_of_kind (kind_of i)) off = Some m ->
+  let i' := set_imm i (off / 2 ^ discard (fmt_of_kind (kind_of i))) in
+  spec_rows rows (a64_mn i) (a64_ops i') = Some (a64_rid i, Z.lor (a64_enc (set_imm i 0)) m) /\
+  disp_of (last (a64_ops i') (OImm 0 0)) = Some off.
+Proof. exact a64_db_patched_spec_rows. Qed.
+Print Assumptions C03_a64_db_patched_spec_rows.
